@@ -7,9 +7,13 @@ import (
 	"fmt"
 	"math/rand"
 	"os"
+	"sync"
+	"time"
 
 	"mangosverif/coqgen"
+	"mangosverif/wire"
 
+	"go.nanomsg.org/mangos/v3"
 	"go.nanomsg.org/mangos/v3/protocol"
 )
 
@@ -19,6 +23,7 @@ func main() {
 		os.Exit(2)
 	}
 	r := coqgen.Rand()
+	defer wire.Cleanup()
 	n := 60
 	if coqgen.Thorough() {
 		n = 600
@@ -68,4 +73,118 @@ func main() {
 	}
 	w.Def("id_cases", "list (list idop * list N)", cases)
 	_ = rand.Int
+	var life []string
+	for i := 0; i < 6; i++ {
+		life = append(life, lifeCase(i))
+	}
+	w.Def("life_cases", "list (N * list N * list N)", life)
+}
+
+// lifeCase: a pipe's ID stays the pipe's until its Detached callback has returned.  A PULL socket with a hook that
+// blocks inside Detached for one pipe; while it is blocked the ID counter is positioned ON that pipe's ID and new peers
+// connect; after the callback has returned the counter is positioned there again and another peer connects.
+// Result: (the ID, IDs given to new pipes while Detached was running, IDs given afterwards).
+func lifeCase(i int) string {
+	coqgen.Watchdog(3 * time.Minute)
+	srv := wire.New("pull")
+	defer srv.Close()
+	var mu sync.Mutex
+	var target uint32
+	var seen []uint32
+	entered, release := make(chan struct{}), make(chan struct{})
+	attachedQ := make(chan uint32, 16)
+	hook := func(ev mangos.PipeEvent, p mangos.Pipe) {
+		switch ev {
+		case mangos.PipeEventAttaching:
+			mu.Lock()
+			seen = append(seen, p.ID())
+			mu.Unlock()
+		case mangos.PipeEventAttached:
+			attachedQ <- p.ID()
+		case mangos.PipeEventDetached:
+			mu.Lock()
+			mine := target != 0 && p.ID() == target
+			if mine {
+				target = 0 // the ID is reused later in the scenario
+			}
+			mu.Unlock()
+			if mine {
+				close(entered)
+				<-release
+			}
+		}
+	}
+	srv.SetPipeEventHook(hook)
+	ad := wire.Addr([]string{"inproc", "tcp", "ipc"}[i%3])
+	if err := srv.Listen(ad); err != nil {
+		return fmt.Sprintf("(0, [], []) (* Listen: %v *)", err)
+	}
+	clientHook := func(ev mangos.PipeEvent, p mangos.Pipe) {
+		if ev == mangos.PipeEventAttaching {
+			mu.Lock()
+			seen = append(seen, p.ID())
+			mu.Unlock()
+		}
+	}
+	dial := func() mangos.Socket {
+		c := wire.New("push")
+		c.SetPipeEventHook(clientHook)
+		_ = c.Dial(ad)
+		return c
+	}
+	waitAttached := func() uint32 {
+		select {
+		case id := <-attachedQ:
+			return id
+		case <-time.After(3 * time.Second):
+			return 0
+		}
+	}
+	c1 := dial()
+	id := waitAttached()
+	if id == 0 {
+		_ = c1.Close()
+		return "(0, [], []) (* first peer never attached *)"
+	}
+	mu.Lock()
+	target = id
+	seen = nil
+	mu.Unlock()
+	_ = c1.Close() // the server side pipe goes away: its Detached callback starts and blocks
+	select {
+	case <-entered:
+	case <-time.After(3 * time.Second):
+		close(release)
+		return fmt.Sprintf("(%d, [], []) (* Detached never started *)", id)
+	}
+	protocol.VerifPipeIDSetNext(id)
+	c2, c3 := dial(), dial()
+	waitAttached()
+	waitAttached()
+	mu.Lock()
+	during := append([]uint32{}, seen...)
+	seen = nil
+	mu.Unlock()
+	close(release)
+	// the ID is released once the callback has returned
+	for k := 0; k < 300 && protocol.VerifPipeIDInUse(id); k++ {
+		time.Sleep(10 * time.Millisecond)
+	}
+	protocol.VerifPipeIDSetNext(id)
+	c4 := dial()
+	waitAttached()
+	mu.Lock()
+	after := append([]uint32{}, seen...)
+	mu.Unlock()
+	for _, c := range []mangos.Socket{c2, c3, c4} {
+		_ = c.Close()
+	}
+	f := func(l []uint32) string {
+		var o []string
+		for _, x := range l {
+			o = append(o, fmt.Sprint(x))
+		}
+		return coqgen.List(o)
+	}
+	return fmt.Sprintf("(%d, %s, %s)", id, f(during), f(after))
 }
